@@ -11,11 +11,15 @@
    make_right_triangle / make_right_diagonal return ONLY new cells; fill_forward_gaps / backfill return
    the union (observed cells kept, proved as `forall c, In c t -> In c out`).
 
-   Partial clauses (named below): C15_backfill_partial does not prove that the cell being extended
-   backwards is the EARLIEST observation of its slice and period (that needs the sortedness invariant
-   of the input, C01; the tie checks it on every case), and C15_fill_forward_gaps states "inside a gap"
-   under the hypothesis that the resolution divides the row's lag span (without it the code adds a
-   cell beyond the last observation: see the check's candidate-finding note). *)
+   Partial clause (named below): C15_backfill_partial + C15_backfill_first_cell prove that the cell
+   being extended backwards is the first cell of its period in t.cells; that this is the EARLIEST
+   observation of its slice and period is proved under [rows_sorted t], the part of the triangle's
+   sortedness invariant (C01) that is needed -- it is a hypothesis here, not a theorem about the
+   constructor.  backfill only extends the first slice of each period (it walks period_rows, not
+   slice_period_rows); the property text makes no completeness claim for backfill.
+   C15_fill_forward_gaps states "inside a gap" under the hypothesis that the resolution divides the
+   row's lag span; without it the code adds a cell beyond the last observation (see the check's
+   candidate-finding note), and the theorem gives the weaker bound lag < last + res. *)
 From Coq Require Import ZArith List Bool Lia.
 From Bermuda Require Import Lib.Calendar Model.Base Model.Accessors Model.Extend
   Proofs.Accessors Proofs.AccessorsTax Proofs.AccessorsCal Proofs.Extend.
@@ -168,6 +172,23 @@ Theorem C15_backfill_partial : forall statics res min_lag t out,
        ps c <= ev x /\ match prev c with Some p => p < ev x | None => True end).
 Proof. exact backfill_spec. Qed.
 Print Assumptions C15_backfill_partial.
+
+(* the extended cell is the first cell of its period in t.cells; under the sortedness invariant it is
+   the earliest observation of its slice and period *)
+Theorem C15_backfill_first_cell : forall statics res min_lag t out,
+  0 < res -> backfill statics (Some res) min_lag t = Ok out ->
+  forall x, In x out -> In x t \/
+    exists c vals pre post pres, t = pre ++ c :: post /\ (forall d, In d pre -> period d <> period c) /\
+      period_resolution t = Ok (Some pres) /\ backfill_values statics c = Ok vals /\
+      In x (backfill_cells res (Z.max min_lag (- pres + 1)) vals c).
+Proof. exact backfill_first. Qed.
+Print Assumptions C15_backfill_first_cell.
+
+Theorem C15_first_cell_is_earliest : forall t pre c post,
+  rows_sorted t -> t = pre ++ c :: post -> (forall d, In d pre -> period d <> period c) ->
+  forall d, In d t -> period d = period c -> meta_pyeq (cmeta c) (cmeta d) = true -> ev c <= ev d.
+Proof. exact first_of_period_earliest. Qed.
+Print Assumptions C15_first_cell_is_earliest.
 
 Theorem C15_backfill_values : forall statics c vals,
   backfill_values statics c = Ok vals ->
